@@ -26,6 +26,8 @@ EXPLANATION = (
 MOD = "pykdebugparser.pykdebugparser"
 SELF = param("self")
 
+ALLOWED_SELF = {"threads_pids", "pids_names", "color", "mach_absolute_time", "numer", "denom", "usecs_since_epoch", "timezone"}
+
 EXPECTED_COLUMNS = {
     "_format_kevent": ["show_timestamp", "show_name", "show_func_qual", "show_tid", "show_process", "show_args"],
     "_format_trace": ["show_timestamp", "show_tid", "show_process"],
@@ -107,6 +109,20 @@ def check(repo: Repo, run: Run) -> None:
         extra = switches_in(body)
         run.ob("R1", MOD, f"PyKdebugParser.{name}", "body independent of the column switches", not extra,
                f"the body of the line depends on {sorted(extra)}", line=fn.lineno)
+        # the line is a function of the object, the shared tables, the switches and the time configuration only
+        foreign = set()
+        for t_ in [rec.return_term()] + [c for r_ in rec.returns for c, _ in r_.pc]:
+            for x in sym.walk(t_):
+                if x.op == "attr" and x.a[0] == SELF and not str(x.a[1]).startswith("show_") and x.a[1] not in ALLOWED_SELF \
+                        and x.a[1] not in pk.methods:
+                    foreign.add(x.a[1])
+        run.ob("R1", MOD, f"PyKdebugParser.{name}", "line depends only on the object, the tables, the switches", not foreign,
+               f"{name} reads self.{sorted(foreign)}: a line no longer depends only on its own record and on what the dump declared "
+               f"up to that point (e.g. a cache that is not invalidated when the tables change)", line=fn.lineno)
+        writes = [e for e in rec.effects if sym.root_of(e.path if e.path is not None else e.base) == SELF]
+        run.ob("R1", MOD, f"PyKdebugParser.{name}", "formatting changes no state", not writes,
+               f"{name} modifies parser state ({[(e.kind, str(e.key)) for e in writes][:3]}): an earlier line influences a later one",
+               nontrivial=False, line=fn.lineno)
 
     # ------------------------------------------------------------------ R2 shared tables
     tp_t, pn_t = T("attr", (SELF, "threads_pids")), T("attr", (SELF, "pids_names"))
